@@ -228,6 +228,22 @@ def elem_singletons(canon, it, frame, _d=0):
             if not s:
                 return set()
             out |= s
+        # elements added after creation: xs.extend(I) / xs.append(x); any other change is unknown
+        from .index import walk_no_nested
+        for n in walk_no_nested(frame.func.node):
+            if isinstance(n, ast.Call) and isinstance(n.func, ast.Attribute) and isinstance(
+                    n.func.value, ast.Name) and n.func.value.id == it.id:
+                if n.func.attr == 'extend' and len(n.args) == 1:
+                    s = elem_singletons(canon, n.args[0], frame, _d + 1)
+                elif n.func.attr == 'append' and len(n.args) == 1:
+                    s = single(n.args[0])
+                elif n.func.attr in ('insert', '__setitem__'):
+                    s = set()
+                else:
+                    continue
+                if not s:
+                    return set()
+                out |= s
         return out
     if isinstance(it, (ast.ListComp, ast.GeneratorExp)) and len(it.generators) == 1:
         return single(it.elt)
